@@ -158,7 +158,7 @@ def ascii_lower(b):
     return bytes(c + 32 if 65 <= c <= 90 else c for c in b)
 
 
-def mon_requests_responses(ctx, conn, skip_sids=(), require_complete=True):
+def mon_requests_responses(ctx, conn, skip_sids=(), require_complete=True, intact_class=None):
     """C01/C09: each expected request dispatched exactly once with exactly its content; each response delivered
     as HEADERS then DATA* with END_STREAM exactly once and the body the handler produced."""
     expect = {}
@@ -181,7 +181,7 @@ def mon_requests_responses(ctx, conn, skip_sids=(), require_complete=True):
                 sid = int(args.split(",", 1)[0])
                 dispatched[sid] += 1
                 if sid in expect and sid not in skip_sids and "dispatch(" + args + ")" != expect[sid]:
-                    viol(ctx, conn, "request-not-intact", dict(sid=sid, got="dispatch(" + args + ")", want=expect[sid]))
+                    viol(ctx, conn, "request-not-intact", dict(sid=sid, got="dispatch(" + args + ")", want=expect[sid]), known_class=intact_class)
             elif name == "H":
                 a = args.split(",", 4)
                 sid = int(a[0])
@@ -210,7 +210,7 @@ def mon_requests_responses(ctx, conn, skip_sids=(), require_complete=True):
         if sid in skip_sids:
             continue
         if dispatched[sid] != 1 and not torn:
-            viol(ctx, conn, "request-not-dispatched", dict(sid=sid, n=dispatched[sid]))
+            viol(ctx, conn, "request-not-dispatched", dict(sid=sid, n=dispatched[sid]), known_class=intact_class)
     if not require_complete:
         return torn
     for sid, r in resp.items():
@@ -702,10 +702,14 @@ def mon_goaway_only_truth(ctx, conn):
 def run_c09(ctx):
     def mon(ctx, conn):
         off = set()
+        undecoded = False       # a header block was refused, or abandoned at a malformed field (F22, F23)
         for _, c in conn.comments:
             if c.startswith("#offence ") or c.startswith("#refused "):
                 off.add(int(c.split()[-1]))
-        torn = mon_requests_responses(ctx, conn, skip_sids=off)
+            if c.startswith("#refused ") or (c.startswith("#offence ") and int(c.split()[1]) in (0, 1, 2, 8, 9)):
+                undecoded = True
+        cls = "hpack-desync-after-undecoded-block" if undecoded else None
+        torn = mon_requests_responses(ctx, conn, skip_sids=off, intact_class=cls)
         if torn:
             site = "-"
             for op, out in conn.steps:
@@ -713,7 +717,8 @@ def run_c09(ctx):
                     if n == "GA":
                         site = a.split(",", 2)[2]
                         break
-            viol(ctx, conn, "stream-error-tore-down-connection", dict(site=site), known_class="stream-offence-goaway:" + site)
+            viol(ctx, conn, "stream-error-tore-down-connection", dict(site=site),
+                 known_class=cls if (site == "compression" and cls) else "stream-offence-goaway:" + site)
     return run_family(ctx, ["srv-err"], [mon, mon_recv_credit_soft],
                       "srv-err: 2-8 streams per connection, 40% offending (11 stream-scoped offences: malformed header, missing pseudo-header, peer RST at two points, handler panic, stream window overflow, content-length mismatch, connection-specific field, DATA after the server's RST, zero increment) or refused at the limit, the peer's encoder indexing entries from offending blocks.")
 
